@@ -19,6 +19,13 @@
 
 extern "C" int __printf(void (*printchar_handler)(void *d, int c), void *printchar_data, const char *format, va_list args);
 
+// gcc 12's ASan interceptor for the host printf family validates a "%.Ns" argument by reading one byte beyond
+// the precision (false positive on exactly-sized unterminated blocks, which ISO C allows).  The host call is the
+// trusted reference here, so its argument vetting is switched off; igris' own reads stay fully instrumented.
+#ifdef VF_MAIN
+extern "C" __attribute__((used, visibility("default"))) const char *__asan_default_options() { return "check_printf=0"; }
+#endif
+
 namespace pf
 {
     struct Arg
